@@ -5,6 +5,8 @@
 -/
 import ClairModel.Model.Maven
 
+set_option linter.unusedSimpArgs false
+
 namespace ClairModel.Maven
 open ClairModel.Order ClairModel.Version
 
